@@ -35,7 +35,7 @@ const (
 
 // a Go error of the function's own that wraps a lisp error: what a bound function does when a lisp
 // callback it called threw and it passes the failure on with its own context
-var c20WrapErr = fmt.Errorf("go side gave up: %w", lisperror.NewLispError("thrown by a callback", nil))
+var c20WrapErr = fmt.Errorf("go side gave up: %w", lisperror.NewLispError("thrown by a callback", types.NewCursorFile("callback.lisp")))
 
 type c20key struct{}
 
@@ -461,13 +461,86 @@ func init() {
 				r.Exec(1)
 			},
 		}
+		// several closures made by one function literal (one code pointer, different captured state),
+		// registered under the same name and bounds in different environments, then called in every order:
+		// each environment's call must enter the closure registered there
+		type cloCase struct {
+			viaOvr bool
+			ctx    bool
+			order  []int
+		}
+		var cloCases []cloCase
+		for _, ovr := range []bool{false, true} {
+			for _, cx := range []bool{false, true} {
+				for _, o := range [][]int{{0, 1, 2}, {2, 1, 0}, {1, 0, 2, 0, 1}, {0, 0, 1, 1}} {
+					cloCases = append(cloCases, cloCase{ovr, cx, o})
+				}
+			}
+		}
+		closures := &vf.Family{
+			Name: "closures-of-one-literal", InProc: true,
+			Bounds:   fmt.Sprintf("%d cases: 3 closures made by one function literal (with / without a context parameter) registered under one name through Call / CallOverrideFN in 3 fresh environments, then called in 4 orders: every call must enter the closure of its own environment", len(cloCases)),
+			N:        func(string) int64 { return int64(len(cloCases)) },
+			Describe: func(i int64) string { c := cloCases[i]; return fmt.Sprintf("override=%v ctx=%v call order %v", c.viaOvr, c.ctx, c.order) },
+			Run: func(i int64, r *vf.Rec) {
+				cc := cloCases[i]
+				r.NT()
+				var envs []types.EnvType
+				name := "clo"
+				for id := 0; id < 3; id++ {
+					ns := env.NewEnv()
+					var f any = c20MakeClosure(id)
+					if cc.ctx {
+						f = c20MakeCtxClosure(id)
+					}
+					if p := lx.Guard(func() {
+						if cc.viaOvr {
+							call.CallOverrideFN(ns, name, f)
+						} else {
+							call.Call(ns, f)
+						}
+					}); p != nil {
+						r.Violation("registration panics: "+panicSig(p), p.String())
+						return
+					}
+					if !cc.viaOvr {
+						for _, sy := range ns.Symbols(nil, "") {
+							if string(sy) != "_PACKAGES_" {
+								name = string(sy)
+							}
+						}
+					}
+					envs = append(envs, ns)
+				}
+				for _, id := range cc.order {
+					res, err, p := lx.Eval(context.Background(), types.List{Val: []types.MalType{types.Symbol{Val: name}, 10}}, envs[id])
+					r.Exec(1)
+					if p != nil || err != nil || res != 10+id {
+						r.Violation("a call does not enter the Go function registered in its environment", fmt.Sprintf("environment %d: (%s 10) = %v err=%v panic=%v, want %d", id, name, res, err, p, 10+id))
+						return
+					}
+				}
+			},
+		}
 		_ = model.Nil
 		return &vf.Check{
 			RacePass: c20RacePass,
 			ID: "C20", Level: "model_checking",
 			Rule: "every (signature, declared bounds, entry point) configuration is registered through the real binder and called through EVAL with every argument list up to length 4; whether the Go function must be entered is computed from its reflect.Type alone (count within declared or derived bounds, every argument assignable, nil only to empty-interface parameters) and compared with what the instrumented function recorded (entered, arguments, context marker), plus result/err/panic conventions; non-trivial = configuration with at least one legal call",
 			Assumptions: []string{"declared bounds count lisp arguments (as the comments at the call.Call(env, apply, 2) sites say), not the injected context", "declared bounds below the number of fixed parameters are not generated (inconsistent declaration)"},
-			Families: []*vf.Family{contract, naming},
+			Families: []*vf.Family{contract, naming, closures},
 		}
 	})
+}
+
+// one function literal each, called several times: the closures share their code pointer
+//
+//go:noinline
+func c20MakeClosure(id int) func(a int) (types.MalType, error) {
+	return func(a int) (types.MalType, error) { return a + id, nil }
+}
+
+//go:noinline
+func c20MakeCtxClosure(id int) func(ctx context.Context, a int) (types.MalType, error) {
+	return func(ctx context.Context, a int) (types.MalType, error) { return a + id, nil }
 }
